@@ -3,6 +3,7 @@ Fault enumeration: for every program of the pool and every handler invocation k,
 injected at k; the faulted evaluation, the context afterwards and a follow-up battery (same context,
 fresh context, other thread, every handler kind, re-registration) are compared with R-EVAL."""
 import json
+import os
 from .. import common, gen, ref, evalcheck
 
 PROP = "C15"
@@ -61,7 +62,7 @@ def run_shard(desc):
     long_cases = []
     if si % 4 == 0:
         for fk in ("err", "panic"):
-            for pad in (70000, 140000):
+            for pad in ((3000,) if os.environ.get("VERIF_TOOL") or profile == "miri" else (70000, 140000)):  # Miri costs ~10 ms per byte tokenized
                 text = "t(1) + " + " " * pad + "gt(2) lop t(3) + 0"
                 cid += 1
                 first = len(steps)
